@@ -114,6 +114,22 @@ func batteryJobs() *pkgJob {
 			}
 			p.nOps["battery:"+sp.op] += n
 		}
+		if w.bits <= 16 {
+			// associative `*` whose whole product is in range only because the last
+			// factor is 0: the intermediate product leaves the type (and, in C, `int`)
+			zt := refT(w, bi(0), bi(0))
+			ps := []slot{{name: "x", expr: "args.x", t: numT(w)}, {name: "y", expr: "args.y", t: numT(w)},
+				{name: "u", expr: "args.u", t: numT(w)}, {name: "v", expr: "args.v", t: numT(w)}, {name: "z", expr: "args.z", t: zt}}
+			out := numT(wtys[3])
+			m := &method{name: "assoc", out: &out, params: ps}
+			m.body = []string{"    return ((args.x * args.y * args.u * args.v * args.z) as base.u64) ~mod+ 5"}
+			p.methods = append(p.methods, m)
+			mx := w.max()
+			for _, vs := range [][]*big.Int{{mx, mx, mx, mx, bi(0)}, {mx, mx, bi(1), bi(1), bi(0)}, {bi(3), bi(5), bi(7), bi(2), bi(0)}} {
+				hist = append(hist, call{m: m, args: vs})
+			}
+			p.nOps["battery:assoc-mul-zero"] += 3
+		}
 		p.src = p.render()
 		j.progs = append(j.progs, p)
 		j.hists = append(j.hists, hist)
@@ -121,6 +137,9 @@ func batteryJobs() *pkgJob {
 	sp, sh := signedBattery()
 	j.progs = append(j.progs, sp)
 	j.hists = append(j.hists, sh)
+	cp, ch := controlBattery()
+	j.progs = append(j.progs, cp)
+	j.hists = append(j.hists, ch)
 	var b strings.Builder
 	for _, p := range j.progs {
 		b.WriteString(p.src)
@@ -172,6 +191,164 @@ func signedBattery() (*program, []call) {
 		p.nOps["battery:signed"] += 6
 	}
 	p.failKey = "ref-diff:signed-operand-unsigned-literal"
+	p.src = p.render()
+	return p, hist
+}
+
+// controlBattery: fixed programs with nested, labelled loops whose deep
+// break / continue (lowered to goto), innermost break / continue, the
+// `while true { … break }` form (lowered to do { } while (0)), else-if chains
+// and early returns are all driven by the two arguments, over all 8 x 8 pairs.
+func controlBattery() (*program, []call) {
+	p := &program{sname: "bcf", nOps: map[string]int{}}
+	p.fields = []slot{
+		{name: "acc", expr: "this.acc", t: numT(wtys[2]), writable: true},
+		{name: "n", expr: "this.n", t: numT(wtys[2]), writable: true},
+	}
+	out := numT(wtys[2])
+	arg := refT(wtys[2], bi(0), bi(7))
+	locals := []slot{}
+	for _, n := range []string{"i", "j", "k", "acc"} {
+		locals = append(locals, slot{name: n, expr: n, t: numT(wtys[2]), writable: true})
+	}
+	locals = append(locals, slot{name: "f", expr: "f", t: boolT(), writable: true})
+	mk := func(name string, body string) *method {
+		m := &method{name: name, pub: false, impure: true, out: &out, locals: locals,
+			params: []slot{{name: "a", expr: "args.a", t: arg}, {name: "b", expr: "args.b", t: arg}}}
+		m.body = strings.Split(strings.Trim(body, "\n"), "\n")
+		p.methods = append(p.methods, m)
+		return m
+	}
+	mk("deep", `
+    while.outer i < 5 {
+        i ~mod+= 1
+        j = 0
+        while.inner j < 5 {
+            j ~mod+= 1
+            if j == args.a {
+                continue.outer
+            }
+            if (i == args.b) and (j == 2) {
+                break.outer
+            }
+            if j == 4 {
+                break.inner
+            }
+            acc = (acc ~mod* 31) ~mod+ ((i ~mod* 8) ~mod+ j)
+        }.inner
+        acc ~mod+= 1000
+    }.outer
+    this.acc ~mod+= acc
+    this.n ~mod+= 1
+    return acc`)
+	mk("plain", `
+    while i < 6 {
+        i ~mod+= 1
+        if i == args.a {
+            continue
+        } else if i == args.b {
+            break
+        } else if (i & 1) == 0 {
+            acc ~mod+= 7
+        } else {
+            acc = (acc ~mod* 3) ~mod+ i
+        }
+        j = 0
+        while j < 3 {
+            j ~mod+= 1
+            if j == args.b {
+                break
+            }
+            acc ~mod+= (j ~mod* 100)
+        }
+    }
+    this.acc ~mod+= acc
+    return acc`)
+	mk("dowhile", `
+    while.outer i < 4 {
+        i ~mod+= 1
+        while.once true {
+            if i == args.a {
+                break.once
+            }
+            acc ~mod+= 10
+            if i == args.b {
+                continue.outer
+            }
+            acc ~mod+= 100
+            while true {
+                if (i ~mod+ 4) == args.a {
+                    break.outer
+                }
+                acc ~mod+= 1000
+                break
+            }
+            break.once
+        }.once
+        acc = (acc ~mod* 7) ~mod+ i
+    }.outer
+    this.acc ~mod+= acc
+    return acc`)
+	mk("triple", `
+    while.l1 i < 3 {
+        i ~mod+= 1
+        j = 0
+        while.l2 j < 3 {
+            j ~mod+= 1
+            k = 0
+            while.l3 k < 3 {
+                k ~mod+= 1
+                acc = (acc ~mod* 5) ~mod+ (((i ~mod* 16) ~mod+ (j ~mod* 4)) ~mod+ k)
+                if ((i ~mod* 3) ~mod+ j) == args.a {
+                    continue.l2
+                }
+                if ((j ~mod* 3) ~mod+ k) == args.b {
+                    break.l2
+                }
+                if ((i ~mod+ j) ~mod+ k) == (args.a ~mod+ args.b) {
+                    continue.l1
+                }
+                if (k == 2) and (args.a == 7) and (j == args.b) {
+                    break.l1
+                }
+            }.l3
+            acc ~mod+= 50
+        }.l2
+        acc ~mod+= 500
+    }.l1
+    this.acc ~mod+= acc
+    return acc`)
+	mk("early", `
+    f = args.a > args.b
+    if f {
+        if args.a == 7 {
+            return 1
+        }
+        acc = 2
+    } else if args.a == args.b {
+        return 3
+    } else {
+        acc = 4
+        if not (args.b > 5) {
+            return acc ~mod+ this.n
+        }
+    }
+    while true {
+        acc ~mod+= 10
+        if acc > 30 {
+            return acc
+        }
+    }
+    return 0`)
+	var hist []call
+	for a := int64(0); a < 8; a++ {
+		for b := int64(0); b < 8; b++ {
+			for _, m := range p.methods {
+				hist = append(hist, call{m: m, args: []*big.Int{bi(a), bi(b)}})
+			}
+		}
+	}
+	p.nOps["battery:control"] = len(hist)
 	p.src = p.render()
 	return p, hist
 }
